@@ -104,37 +104,44 @@ def permuteTo (funcs : List CP) (order : List Nat) : Option (List CP) :=
   if order.length == funcs.length && picked.length == funcs.length && order.eraseDups.length == order.length then some picked
   else none
 
-/-- `doBind` up to the point where the closures are generated.  reorder.go is not modelled: for a
-    chain with Reorder'd providers the order it chose (and the providers it gave up on) is taken from
-    the implementation's S4 dump, after the validators of C17 accepted it. -/
+/-- `doBind` from the inclusion computation on: inclusion, shadowing check, slot assignment, the check of the init
+    function's results -/
+def bindTail (ti : TyInfo) (asm : Assembled) (cannot4 : List Nat) : Except BindErr BindOut :=
+  match computeInclusion ti asm.funcs cannot4 with
+  | .error .required => .error .required
+  | .error .wanted => .error .wanted
+  | .error .internal => .error .internal
+  | .error .fuel => .error .fuel
+  | .ok ch =>
+    if !checkShadowing ch then .error .shadow else
+    let so := assignSlots ch asm.invokeIndex
+    let initBad := match ch.find? (·.c.cls == .initFunc) with
+      -- (bind.go looks the type up through downRmap, not bypassRmap, and before the run set gets its slots)
+      | some f => f.c.byp.any fun t => so.st.reg.contains (remapT f.downRmap t) && (so.staticD.lookup (remapT f.downRmap t)).isNone
+      | none => false
+    if initBad then .error .initType
+    else .ok { chain := ch, invokeIndex := asm.invokeIndex, slots := so }
+
+/-- the order `reorder` chose, when it is given -/
+def applyOrder (asm0 : Assembled) (order4 : Option (List Nat)) : Option Assembled :=
+  match order4 with
+  | none => some asm0
+  | some o => (permuteTo asm0.funcs o).map fun fs => { asm0 with funcs := fs }
+
+/-- `doBind` up to the point where the closures are generated.  reorder.go is not modelled HERE (it is in
+    `ReorderAlg.lean`): for a chain with Reorder'd providers the order it chose (and the providers it gave up on) is
+    taken from the implementation's S4 dump, after the validators of C17 accepted it. -/
 def bindModel (ti : TyInfo) (enodes : List ENode) (descs : List PDesc) (inv : Sig) (ini : Option Sig)
     (order4 : Option (List Nat) := none) (cannot4 : List Nat := []) :
     Except BindErr BindOut :=
   match editAll enodes with
   | .error e => .error (.edit e)
   | .ok order =>
-    let provs := order.filterMap fun n => descs.find? (·.idx == n.idx)
-    match assemble provs inv ini with
+    match assemble (order.filterMap fun n => descs.find? (·.idx == n.idx)) inv ini with
     | none => .error .classify
     | some asm0 =>
-      match (match order4 with
-             | none => some asm0
-             | some o => (permuteTo asm0.funcs o).map fun fs => { asm0 with funcs := fs }) with
+      match applyOrder asm0 order4 with
       | none => .error .internal
-      | some asm =>
-      match computeInclusion ti asm.funcs cannot4 with
-      | .error .required => .error .required
-      | .error .wanted => .error .wanted
-      | .error .internal => .error .internal
-      | .error .fuel => .error .fuel
-      | .ok ch =>
-        if !checkShadowing ch then .error .shadow else
-        let so := assignSlots ch asm.invokeIndex
-        let initBad := match ch.find? (·.c.cls == .initFunc) with
-          -- (bind.go looks the type up through downRmap, not bypassRmap, and before the run set gets its slots)
-          | some f => f.c.byp.any fun t => so.st.reg.contains (remapT f.downRmap t) && (so.staticD.lookup (remapT f.downRmap t)).isNone
-          | none => false
-        if initBad then .error .initType
-        else .ok { chain := ch, invokeIndex := asm.invokeIndex, slots := so }
+      | some asm => bindTail ti asm cannot4
 
 end Nject
